@@ -215,7 +215,7 @@ func daysOfMonth(year, month int) int {
 }
 
 func (t *DateTime) AddDateSpan(val DateSpan) *DateTime {
-	result := t.AddTimeSpan(TimeSpan(val.Days()) * Day)
+	result := ToElkDateTime(t.native.AddDate(0, 0, val.Days()))
 	oldDay := result.Day()
 
 	month := result.Month() + int(val.months)
@@ -269,7 +269,7 @@ func (t *DateTime) SubtractDateTimeSpan(val *DateTimeSpan) *DateTime {
 }
 
 func (t *DateTime) SubtractDateSpan(val DateSpan) *DateTime {
-	return t.ToDateTimeSpan().SubtractDateSpan(val).ToDateTime()
+	return t.AddDateSpan(val.Negate())
 }
 
 func (t *DateTime) SubtractTimeSpan(val TimeSpan) *DateTime {
